@@ -51,6 +51,13 @@ def c02(tier, seed):
         for (m, extra) in modes:
             k += 1
             runs.append(ds("mon", "wsd", seed, k, thr, mode=m, rounds=30 if q else 300, ops=6000 if q else 12000, **extra))
+    # growth race: thousands of short deque lives, thieves released exactly when the owner performs the growing push
+    for thr in ([3, 6] if q else [2, 3, 6, 12]):
+        for (m, extra) in [("nohook", dict(hist=1)), ("stall", dict(stall_point="WSD_GROW", stall_us_lo=20, stall_us_hi=200)),
+                           ("stall", dict(stall_point="WSD_GROW", stall_us_lo=20, stall_us_hi=200, preempt=1, preempt_us=40)),
+                           ("nohook", dict(hist=1, preempt=1, preempt_us=40))]:
+            k += 1
+            runs.append(ds("mon", "wsd", seed, k, thr, mode=m, shape=3, rounds=3000 if q else 30000, ops=300, **extra))
     for thr in ([4] if q else [2, 8, 16]):
         k += 1
         runs.append(ds("asan", "wsd", seed, k, thr, mode="jitter", rounds=20 if q else 150, ops=6000))
